@@ -658,7 +658,12 @@ def body_metadata(g, keep_ids=()):
                         leader = rng.choice([4, 77, I32MAX - 1])     # a broker the answer does not list
                         while leader in ids:
                             leader += 1
-                    parts.append({"error": 0 if leader in ids else 5, "id": pid, "leader": leader, "replicas": replicas(), "isr": replicas()})
+                    err = 0 if leader in ids else 5
+                    if leader in ids and rng.random() < 0.2:
+                        # a partition-level code next to a live, listed leader (9 = a follower replica is down): the leader stands
+                        err = rng.choice([9, 9, 9, 5, 3, -1])
+                        g.bounds.add("partition-error-with-leader")
+                    parts.append({"error": err, "id": pid, "leader": leader, "replicas": replicas(), "isr": replicas()})
             topics.append({"error": 0, "topic": names[i], "partitions": parts})
     return {"brokers": brokers_, "topics": topics}
 
